@@ -13,6 +13,10 @@ SAFE = ["C06_OwnReplyOnly", "C06_AtMostOneReply", "C06_OutcomeConsistent", "C06_
 
 def run(ctx):
     quick = ctx.tier == "quick"
+    if ctx.replay and json.load(open(ctx.replay))["case"].get("family") in ("ibb", "ibb-listen"):
+        import ibbcommon
+        ctx.write_evidence("model_checking", {"replayed": ctx.replay, "ibb": ibbcommon.run_c06_part(ctx)})
+        return
     if ctx.replay and json.load(open(ctx.replay))["case"].get("family") == "iter":
         import itercommon
         part = itercommon.run_part(ctx)
